@@ -189,10 +189,19 @@ func runC01(c *Ctx) {
 		buf := append([]byte(nil), doc...)
 		switch mode {
 		case 0:
+			// the caller's slice sits in a larger backing array (spare capacity filled with a sentinel):
+			// neither the visible bytes nor the spare ones may be written, with or without NUL in the input
+			backing := make([]byte, len(doc)+3*bytes.Count(doc, []byte{0})+9)
+			for i := range backing {
+				backing[i] = 0xA5
+			}
+			copy(backing, doc)
+			snapshot := append([]byte(nil), backing...)
+			buf = backing[:len(doc)]
 			if p := safely(func() { res.roots, res.refs = cm.Parse(buf) }); p != "" {
 				return ""
 			}
-			if !bytes.Equal(buf, doc) && bytes.IndexByte(doc, 0) < 0 {
+			if !bytes.Equal(backing, snapshot) {
 				return "caller-buffer-modified"
 			}
 			if bytes.IndexByte(doc, 0) < 0 {
